@@ -57,9 +57,12 @@ Definition set_post (a : set_args) (saveto : nat -> lres nat) (change : nat -> c
   | _ => match change d1 with ChOk d2 => d2 | ChYpe _ d2 => d2 | _ => d1 end
   end.
 
-(* what the written text reloads to: the post-state itself for YAML, its JSON view for JSON *)
-Definition set_written (a : set_args) (flow : nat -> bool) (jsonview : nat -> nat) (d : nat) : nat :=
-  if negb (flow d) && negb (sa_is_json_ext a) then d else jsonview d.
+(* what the written text reloads to: for YAML the post-state as far as ruamel's emitter is faithful
+   ([yamlview], an oracle), for JSON its JSON view *)
+Definition set_written (a : set_args) (flow : nat -> bool) (yamlview jsonview : nat -> nat) (d : nat) : nat :=
+  if negb (flow d) && negb (sa_is_json_ext a) then yamlview d else jsonview d.
+(* ruamel's YAML emitter round-trips every state *)
+Definition dump_faithful (yamlview : nat -> nat) : Prop := forall d, yamlview d = d.
 
 (* ---- yaml-paths: the search results ---- *)
 Definition result_texts (xs : expr_results) : list string :=
